@@ -99,9 +99,9 @@ Proof.
     + eapply Qle_trans; [apply pymax_ge_l|exact H1].
     + intros c' [<-|Hin]; [eapply Qle_trans; [apply pymax_ge_r|exact H1]|apply H2, Hin].
     + destruct H3 as [H3|(c' & Hin & H3)].
-      * destruct (pymax_cases a (g c)) as [[E _]|[E _]]; rewrite E in H3.
-        -- left. exact H3.
-        -- right. exists c. split; [left; reflexivity|exact H3].
+      * destruct (pymax_cases a (g c)) as [[E _]|[E _]].
+        -- left. exact (eq_trans H3 E).
+        -- right. exists c. split; [left; reflexivity|exact (eq_trans H3 E)].
       * right. exists c'. split; [right; exact Hin|exact H3].
 Qed.
 
@@ -300,7 +300,8 @@ Theorem results_later_wins (t : ptree P) (k : string) ps1 p ps2 v :
   dict_get k (results res t) = Some v.
 Proof.
   intros Hall Hp Hlater. destruct (results_spec t) as (_ & Hget).
-  rewrite Hget, Hall, merged_from_app. simpl. unfold merged_from at 1. simpl. rewrite Hp.
-  rewrite merged_from_acc. apply merged_from_None in Hlater. rewrite Hlater. reflexivity.
+  rewrite Hget, Hall, merged_from_app. change (p :: ps2) with ([p] ++ ps2). rewrite merged_from_app.
+  rewrite (merged_from_acc k _ ps2). apply merged_from_None in Hlater. rewrite Hlater.
+  unfold merged_from. simpl. rewrite Hp. reflexivity.
 Qed.
 End ResultsMerge.
